@@ -216,15 +216,21 @@ class Driver:
     def run(self, lines, timeout=3000):
         if not lines:
             return []
-        ok, out, _ = lake_build(['PhotVerif.Driver.All'])
-        if not ok:
-            self.ok = False
-            self.error = 'driver build failed: ' + ' | '.join(
-                ln for ln in out.split('\n') if 'error' in ln)[:1500]
-            return None
+        ok, out, _ = lake_build(['photdriver'])
+        exe = os.path.join(LEAN, '.lake', 'build', 'bin', 'photdriver')
         inp = '\n'.join(lines) + '\n'
-        p = subprocess.run(['lake', 'env', 'lean', '--run', 'Driver.lean'], cwd=LEAN, input=inp,
-                           capture_output=True, text=True, timeout=timeout)
+        if ok and os.path.exists(exe):
+            p = subprocess.run([exe], cwd=LEAN, input=inp, capture_output=True, text=True, timeout=timeout)
+        else:
+            # fall back to the interpreter (slower) if the executable cannot be linked
+            ok2, out2, _ = lake_build(['PhotVerif.Driver.All'])
+            if not ok2:
+                self.ok = False
+                self.error = 'driver build failed: ' + ' | '.join(
+                    ln for ln in (out + out2).split('\n') if 'error' in ln)[:1500]
+                return None
+            p = subprocess.run(['lake', 'env', 'lean', '--run', 'Driver.lean'], cwd=LEAN, input=inp,
+                               capture_output=True, text=True, timeout=timeout)
         outl = p.stdout.split('\n')
         if outl and outl[-1] == '':
             outl.pop()
